@@ -158,7 +158,7 @@ def _shorten(obj, maxlen=24):
 class SubCheck:
     def __init__(self, name, strategy, check, quick, thorough, rule,
                  floors=None, classify=None, shrink_cap=(20, 120),
-                 quick_shards=None, exhaustive=False, doc=""):
+                 quick_shards=None, exhaustive=False, doc="", fuzz=True):
         """
         quick / thorough : number of Hypothesis examples per tier (total,
             divided over shards).
@@ -181,6 +181,9 @@ class SubCheck:
         self.quick_shards = quick_shards
         self.exhaustive = exhaustive
         self.doc = doc
+        # fuzz : include this sub-check in the coverage-guided phase of the thorough tier (off for
+        # statistical sub-checks whose single case costs seconds and has no input-dependent branches)
+        self.fuzz = fuzz
 
 
 def derive_seed(base, *parts):
@@ -354,6 +357,71 @@ def run_task(task):
     return out
 
 
+# statistical sub-checks: one case draws 1e4..1e6 samples and has no input-dependent branches in pyrex
+NO_FUZZ = {("C13", "vertex_cylinder"), ("C13", "vertex_box"), ("C13", "direction"), ("C13", "particle_type"),
+           ("C13", "shadow"), ("C14", "kind_dist"), ("C14", "inelasticity_dist"), ("C17", "rayleigh_stats")}
+
+
+def fuzz_available():
+    """atheris importable from /verif/.deps (installed there by MANIFEST setup_cmd)?"""
+    deps = os.path.join(VERIF_DIR, ".deps")
+    return os.path.isdir(os.path.join(deps, "atheris"))
+
+
+def run_fuzz_task(task):
+    """Coverage-guided shard: one libFuzzer campaign (pbt/fuzz_worker.py) in its own process,
+    because libFuzzer ends the process it runs in.  Result has the shape of run_task's."""
+    import re
+    import shutil
+    import subprocess
+    import tempfile
+    prop_id, sub_name, shard, runs, seed_value, known_keys = task
+    t0 = time.time()
+    out = {"sub": sub_name, "shard": "fuzz-%d" % shard, "engine": "atheris", "failure": None,
+           "harness": None, "known_hits": {}, "wall_s": 0.0, "runs": runs, "libfuzzer": {}}
+    tmp = tempfile.mkdtemp(prefix="pyrex-fuzz-")
+    try:
+        res = os.path.join(tmp, "out.json")
+        cmd = [sys.executable, os.path.join(VERIF_DIR, "pbt", "fuzz_worker.py"), prop_id, sub_name,
+               str(runs), str(seed_value), res, json.dumps(known_keys)]
+        p = subprocess.run(cmd, cwd=tmp, stdout=subprocess.PIPE, stderr=subprocess.STDOUT, text=True,
+                           timeout=int(os.environ.get("VERIF_FUZZ_TIMEOUT", "5400")))
+        data = None
+        if os.path.exists(res):
+            with open(res) as f:
+                data = json.load(f)
+        if data is None:
+            out["harness"] = "fuzz worker produced no result (exit %d): %s" % (p.returncode, p.stdout[-3000:])
+        else:
+            for k in ("failure", "harness", "known_hits", "rec"):
+                out[k] = data.get(k)
+            out["known_hits"] = out["known_hits"] or {}
+            out["calls"] = data.get("calls", 0)
+            m = re.findall(r"cov: (\d+) ft: (\d+) corp: (\d+)", p.stdout)
+            if m:
+                out["libfuzzer"] = {"cov_edges": int(m[-1][0]), "features": int(m[-1][1]),
+                                    "corpus": int(m[-1][2])}
+            m = re.search(r"number_of_executed_units: (\d+)", p.stdout)
+            if m:
+                out["libfuzzer"]["executed_units"] = int(m.group(1))
+            if out["failure"] is None and out["harness"] is None and p.returncode != 0:
+                out["harness"] = "fuzz worker exit %d: %s" % (p.returncode, p.stdout[-3000:])
+    except subprocess.TimeoutExpired:
+        out["inconclusive"] = "time budget of the coverage-guided shard hit"
+    except BaseException as e:  # noqa
+        if isinstance(e, (KeyboardInterrupt, SystemExit)):
+            raise
+        out["harness"] = "".join(traceback.format_exception(type(e), e, e.__traceback__))[-6000:]
+    finally:
+        shutil.rmtree(tmp, ignore_errors=True)
+    out["wall_s"] = time.time() - t0
+    return out
+
+
+def _run_any(task):
+    return run_fuzz_task(task[1:]) if task[0] == "fuzz" else run_task(task)
+
+
 def run_replay(prop_id, sub_name, case):
     """Plain regression form: no Hypothesis involved."""
     setup_environment()
@@ -458,10 +526,28 @@ def drive(prop_id, tier, seed_value, only=None, jobs=None, scale=1.0,
             tasks.append((prop_id, sub.name, sh, per,
                           derive_seed(seed_value, prop_id, sub.name, sh),
                           tier, keys))
+    # ---- coverage-guided phase (thorough tier): the same tests under libFuzzer/atheris -------
+    fuzz_note = None
+    if tier == "thorough" and os.environ.get("VERIF_FUZZ", "1") != "0":
+        if not fuzz_available():
+            fuzz_note = "skipped: atheris is not installed under .deps (run MANIFEST setup_cmd)"
+        else:
+            frac = float(os.environ.get("VERIF_FUZZ_FRACTION", "0.3"))
+            for sub in prop.subchecks:
+                if (only and sub.name not in only) or sub.exhaustive or not sub.fuzz or \
+                        (prop_id, sub.name) in NO_FUZZ:
+                    continue
+                n = min(sub.thorough, int(sub.quick * float(os.environ.get("VERIF_THOROUGH_FACTOR", "15"))))
+                n = max(200, int(n * frac * scale))
+                shards = max(1, min(jobs, n // 400))
+                keys = [f["key"] for f in known if f.get("subcheck") in (None, sub.name)]
+                for sh in range(shards):
+                    tasks.append(("fuzz", prop_id, sub.name, sh, int(math.ceil(n / shards)),
+                                  derive_seed(seed_value, prop_id, sub.name, "fuzz", sh), keys))
     # longest first is unknown; interleave sub-checks so that slow ones start early
     ctx = multiprocessing.get_context(os.environ.get("VERIF_MP", "forkserver"))
     if len(tasks) == 1 or jobs == 1:
-        results = [run_task(t) for t in tasks]
+        results = [_run_any(t) for t in tasks]
     else:
         # ProcessPoolExecutor (not Pool.map): a worker killed by the kernel (e.g. out of
         # memory under a mutant) raises BrokenProcessPool instead of hanging for ever
@@ -469,11 +555,13 @@ def drive(prop_id, tier, seed_value, only=None, jobs=None, scale=1.0,
         from concurrent.futures.process import BrokenProcessPool
         results = []
         with ProcessPoolExecutor(min(jobs, len(tasks)), mp_context=ctx) as ex:
-            futs = [(t, ex.submit(run_task, t)) for t in tasks]
+            futs = [(t, ex.submit(_run_any, t)) for t in tasks]
             for t, fu in futs:
                 try:
                     results.append(fu.result())
                 except BrokenProcessPool:
+                    if t[0] == "fuzz":
+                        t = t[1:]
                     results.append({"sub": t[1], "shard": t[2], "failure": None, "known_hits": {},
                                     "harness": "worker process died (killed / out of memory)",
                                     "wall_s": 0.0})
@@ -482,7 +570,32 @@ def drive(prop_id, tier, seed_value, only=None, jobs=None, scale=1.0,
     failures = []
     harness = []
     known_hits = {}
+    per_fuzz = {}
     for r in results:
+        if r.get("engine") == "atheris":
+            z = per_fuzz.setdefault(r["sub"], {"executions": 0, "evaluations": 0, "keys": set(), "classes": {},
+                                               "shards": 0, "wall_s": 0.0, "cov_edges": 0, "features": 0,
+                                               "corpus": 0, "inconclusive": 0})
+            z["shards"] += 1
+            z["wall_s"] = max(z["wall_s"], r["wall_s"])
+            z["executions"] += r.get("libfuzzer", {}).get("executed_units", 0)
+            z["cov_edges"] = max(z["cov_edges"], r.get("libfuzzer", {}).get("cov_edges", 0))
+            z["features"] = max(z["features"], r.get("libfuzzer", {}).get("features", 0))
+            z["corpus"] += r.get("libfuzzer", {}).get("corpus", 0)
+            if r.get("inconclusive"):
+                z["inconclusive"] += 1
+            if r.get("rec"):
+                z["evaluations"] += r["rec"]["evaluations"]
+                z["keys"].update(r["rec"]["keys"])
+                for k, v in r["rec"]["classes"].items():
+                    z["classes"][k] = z["classes"].get(k, 0) + v
+            for k, v in (r.get("known_hits") or {}).items():
+                known_hits[k] = known_hits.get(k, 0) + v
+            if r["harness"]:
+                harness.append((r["sub"], r["shard"], r["harness"]))
+            if r["failure"]:
+                failures.append((r["sub"], r["shard"], r["failure"]))
+            continue
         s = per_sub.setdefault(r["sub"], {"evaluations": 0, "keys": set(),
                                           "classes": {}, "samples": [],
                                           "excluded": {}, "wall_s": 0.0,
@@ -559,7 +672,7 @@ def drive(prop_id, tier, seed_value, only=None, jobs=None, scale=1.0,
     # ---- replay files -------------------------------------------------------
     violation_lines = []
     seen_subs = set()
-    for sub_name, shard, fl in sorted(failures, key=lambda x: (x[0], x[1])):
+    for sub_name, shard, fl in sorted(failures, key=lambda x: (x[0], str(x[1]))):
         if sub_name in seen_subs:
             continue
         seen_subs.add(sub_name)
@@ -587,6 +700,7 @@ def drive(prop_id, tier, seed_value, only=None, jobs=None, scale=1.0,
 
     # ---- evidence -----------------------------------------------------------
     total_eval = sum(s["evaluations"] for s in per_sub.values())
+    fuzz_eval = 0
     all_keys = set()
     sub_out = {}
     samples = []
@@ -609,6 +723,19 @@ def drive(prop_id, tier, seed_value, only=None, jobs=None, scale=1.0,
             "exhaustive": bool(sub.exhaustive),
             "samples": [x[1] for x in ss[:3]],
         }
+        z = per_fuzz.get(sub.name)
+        if z:
+            new_keys = z["keys"] - s["keys"]
+            all_keys.update((sub.name, k) for k in z["keys"])
+            sub_out[sub.name]["coverage_guided"] = {
+                "engine": "atheris/libFuzzer on Hypothesis fuzz_one_input, pyrex instrumented",
+                "executions": z["executions"], "cases_decoded_and_checked": z["evaluations"],
+                "distinct_nontrivial": len(z["keys"]), "distinct_nontrivial_not_seen_by_hypothesis": len(new_keys),
+                "classes": dict(sorted(z["classes"].items())), "shards": z["shards"],
+                "max_edges_covered_in_pyrex": z["cov_edges"], "max_features": z["features"],
+                "corpus_units": z["corpus"], "shards_inconclusive_time_budget": z["inconclusive"],
+                "wall_s_max_shard": round(z["wall_s"], 2)}
+            fuzz_eval += z["evaluations"]
         for k, v in s["classes"].items():
             classes[sub.name + ":" + k] = v
         samples.extend({"subcheck": sub.name, "case": x[1]} for x in ss[:2])
@@ -619,9 +746,14 @@ def drive(prop_id, tier, seed_value, only=None, jobs=None, scale=1.0,
         "seed": int(seed_value),
         "level": "exploration",
         "coverage": {
-            "evaluations": int(total_eval),
+            "evaluations": int(total_eval + fuzz_eval),
+            "evaluations_hypothesis": int(total_eval),
+            "evaluations_coverage_guided": int(fuzz_eval),
+            "coverage_guided_phase": (fuzz_note or ("ran" if per_fuzz else "not part of this tier")),
             "distinct_nontrivial": int(len(all_keys)),
-            "rule": ("Hypothesis-generated cases per sub-check; a case counts when it is "
+            "rule": ("Hypothesis-generated cases per sub-check (thorough tier: plus the same tests driven "
+                     "by libFuzzer through fuzz_one_input, counted only when the bytes decode into a case "
+                     "that reaches the oracle); a case counts when it is "
                      "non-trivial by its sub-check's rule and its rounded digest is new. "
                      + " | ".join(rules)),
             "samples": samples,
@@ -642,9 +774,17 @@ def drive(prop_id, tier, seed_value, only=None, jobs=None, scale=1.0,
     for name, s in sub_out.items():
         print("  %-28s eval=%-7d nontrivial=%-7d wall=%.1fs" %
               (name, s["evaluations"], s["distinct_nontrivial"], s["wall_s_max_shard"]))
+        z = s.get("coverage_guided")
+        if z:
+            print("  %-28s fuzz: exec=%-7d cases=%-7d nontrivial=%-6d new=%-6d edges=%d wall=%.1fs" %
+                  ("", z["executions"], z["cases_decoded_and_checked"], z["distinct_nontrivial"],
+                   z["distinct_nontrivial_not_seen_by_hypothesis"], z["max_edges_covered_in_pyrex"],
+                   z["wall_s_max_shard"]))
+    if fuzz_note:
+        print("NOTE: coverage-guided phase " + fuzz_note)
     if harness:
         for sub_name, shard, msg in harness[:3]:
-            print("HARNESS-ERROR property=%s subcheck=%s shard=%d\n%s"
+            print("HARNESS-ERROR property=%s subcheck=%s shard=%s\n%s"
                   % (prop_id, sub_name, shard, msg))
         for l in violation_lines:
             print(l)
@@ -658,5 +798,5 @@ def drive(prop_id, tier, seed_value, only=None, jobs=None, scale=1.0,
             print("HARNESS-ERROR generator starved: " + l)
         return 2
     print("OK property=%s tier=%s seed=%s evaluations=%d distinct_nontrivial=%d wall=%.1fs"
-          % (prop_id, tier, seed_value, total_eval, len(all_keys), time.time() - t0))
+          % (prop_id, tier, seed_value, total_eval + fuzz_eval, len(all_keys), time.time() - t0))
     return 0
